@@ -68,6 +68,11 @@ def cal_pool(base_day):
         # validity starting inside the project window (the first valid day is a start candidate)
         ("starts-later", cal.op("|", W([0, 1, 2, 3, 4, 5, 6], cal.q(8), (b + 2) * DAY, None),
                                 W([0, 1, 2, 3, 4], cal.q(4), None, (b + 1) * DAY + 1439)), True, False),
+        # NOT day-granular (validity ends at midnight of a day: capacity at 00:00, none later that day): the
+        # schedulers probe such a day at different times of day, so only C06 (purity, repeatability) and C14
+        # are judged on inputs that use it (flag `tod`)
+        ("tod-end", cal.op("|", W([0, 1, 2, 3, 4, 5, 6], cal.q(8), None, (b + 3) * DAY),
+                           W([0, 1, 2, 3, 4, 5, 6], cal.q(2), (b + 6) * DAY, None)), False, False),
         ("zero", W([0, 1, 2, 3, 4, 5, 6], cal.q(0)), False, True),
         ("empty", D({}), False, True),
         ("fixed0", cal.fixed(cal.q(0)), False, True),
@@ -199,6 +204,8 @@ def gen_case(rng, direction, n, cid, opts=None):
             if supplied:
                 choices = [c for c in pool if (never_ok or not c[3])]
                 c = rng.choice(choices if not never_ok else [x for x in pool if x[3]] + choices[:2])
+                if rng.random() < 0.08:
+                    c = [x for x in pool if x[0] == "tod-end"][0]
                 resources.append({"name": nm, "expr": c[1], "supplied": True, "ample": c[2], "never": c[3],
                                   "calname": c[0]})
             else:
@@ -256,7 +263,7 @@ def gen_case(rng, direction, n, cid, opts=None):
     I = {"dir": direction, "balance": opts.get("balance", rng.random() < 0.7),
          "submin": rng.choice([0, 0, 0, 1, 30, 59]) * 1000000 + rng.choice([0, 0, 250000, 999000]),
          "defEst": q4(rng.choice([0, 0, 8])), "pstart": pstart, "now": now, "tasks": tasks, "roots": roots,
-         "resources": resources, "ext": ext}
+         "resources": resources, "ext": ext, "tod": any(r["calname"] == "tod-end" for r in resources)}
     return {"id": cid, "I": I}
 
 
